@@ -650,7 +650,7 @@ func (r *Runner) cmd(ctx context.Context, cm syntax.Command) {
 					// check this as well.
 					break
 				}
-				if !r.exit.ok() || r.loopStmtsBroken(ctx, cm.Do) {
+				if r.loopStmtsBroken(ctx, cm.Do) {
 					break
 				}
 				if y.Post != nil {
